@@ -267,13 +267,14 @@ def main(argv=None):
     for h in harness_errors[:10]:
         print("HARNESS-ERROR: %s" % str(h)[:1500])
 
-    distinct_nontrivial = len(set(merged["cover"]))
+    distinct_nontrivial = len(merged["nt_digests"])
+    distinct_transitions = len(set(merged["cover"]))
     runs = merged["runs"]
     print("%s %s seed=%d: %d runs (%d fault-enumeration variants), %d non-trivial, "
-          "%d distinct abstract transitions, %d steps, %.1fs (%.0f runs/h); "
+          "%d distinct, %d distinct abstract transitions, %d steps, %.1fs (%.0f runs/h); "
           "violations=%d known=%d harness_errors=%d"
           % (prop, tier, seed, runs, merged["variants"], merged["nontrivial"],
-             distinct_nontrivial, merged["steps"], wall,
+             distinct_nontrivial, distinct_transitions, merged["steps"], wall,
              runs / max(wall, 1e-9) * 3600.0, len(violations), len(known_printed),
              len(harness_errors)))
 
@@ -286,6 +287,7 @@ def main(argv=None):
             "coverage": {
                 "evaluations": runs + corpus_ran + 2 * det_checked,
                 "distinct_nontrivial": distinct_nontrivial,
+                "distinct_abstract_transitions": distinct_transitions,
                 "rule": world.rule,
                 "samples": merged["samples"][:3] or [world.gen(random.Random(0), tier)],
                 "simulated_runs": runs,
